@@ -22,7 +22,7 @@ META = {
     "modules": ["pkgcore.fs.ops"],
     "functions": ["ops.merge_contents", "ops.copyfile ('#new' + rename)", "ops.do_link ('#new' + rename)", "ops.ensure_perms", "ops.mkdir"],
     "stubs": ["pkgcore.fs.ops.os wrapped (mutating calls counted, stop injected)", "ops.unlink_if_exists / ops.ensure_dirs wrapped likewise", "snakeoil.data_source.local_source.transfer_to_path wrapped (partial write at the stop)"],
-    "bounds": {"quick": "crash only; /l in {absent, sym-to-file}; pre-existing /s = directory and /l = file fixed; operation index 0..27", "thorough": "crash and EIO, all shapes"},
+    "bounds": {"quick": "crash only; /l in {absent, sym-to-file}; pre-existing /s = directory and /l = file fixed; operation index 0..27", "thorough": "crash: all shapes; EIO: pre-existing /s = directory and /l = file fixed"},
     "outside": ["a pre-existing dangling symlink in the way of a directory (unlink + mkdir is not atomic by design)", "torn writes below the system-call level", "device nodes"],
     "assumptions": [],
     "selector_only": True,
@@ -189,6 +189,6 @@ def obligations(tier, seed):
                 if tier == "quick" and j in (1, 2):
                     continue
                 for k in range(len(M.NEW_F)):
-                    obs.append({"oid": f"{kind}|pre-existing /d={M.PRE_D[i]}|/l={M.NEW_L[j]}|/d/f={M.NEW_F[k]}", "kind": kind, "pre_d": i, "new_l": j, "new_f": k, "slim": tier == "quick", "max_paths": 500000, "max_s": 2400})
+                    obs.append({"oid": f"{kind}|pre-existing /d={M.PRE_D[i]}|/l={M.NEW_L[j]}|/d/f={M.NEW_F[k]}", "kind": kind, "pre_d": i, "new_l": j, "new_f": k, "slim": tier == "quick" or kind == "EIO", "max_paths": 500000, "max_s": 2400})
     UNIVERSE[tier] = {"obligations": len(obs)}
     return obs
